@@ -57,15 +57,31 @@ LONG = [
     ("typedef int a;\n#line 20\na z1;\n# 7\nint z2;\n#pragma pack(1)\nint z3;", "second.c"),
     ("int a;\n#line 20\nint z1;\n# 7\nint z2;\n#pragma pack(1)\nint z3;", "third.c"),
     ("typedef int T; T x; void f(void){ T * y; { int T; T = 1; } T z; }", "A2.c"),
+    # different texts under ONE file name, failing at a coordinate: exposes anything keyed by file name (line caches ...)
+    ("int a;\nint f(void)\n{\n  return a b;\n}\n", "input.c"),
+    ("typedef int a;\na g(a x)\n{\n  a secret = x;\n  return secret;\n}\n", "input.c"),
+    ("int ok1;\nint ok2;\nint bad = (1;\n", "input.c"),
+    ("typedef int T; T f(T a) { T b = a; return b; }", "p.c"),
+    ("int T; int g(int c) { T = c; return T * 2; }", "q.c"),
 ]
 
 
 # ------------------------------------------------------------------ results
-def result_key(text, fname, lexer_cls=None):
-    """Everything observable of one parse+generate+visit run, as a JSON-able key."""
+def result_key(text, fname, lexer_cls=None, warm=False):
+    """Everything observable of one parse+generate+visit run, as a JSON-able key.  warm: the parser instance has already
+    completed one (unscheduled) parse of another text before - a used instance must behave like a new one (C12), so
+    whatever it keeps from that parse must not become visible to a concurrently running instance either."""
     S = sut.load()
     try:
         p = S.CParser(lexer=lexer_cls) if lexer_cls is not None else S.CParser()
+        if warm:
+            if lexer_cls is not None:
+                lexer_cls._vf_pass = True
+            try:
+                p.parse("typedef int warm_t; warm_t warm_up(warm_t w) { return w; }", "warm.c")
+            finally:
+                if lexer_cls is not None:
+                    lexer_cls._vf_pass = False
         ast = p.parse(text, fname)
     except S.ParseError as e:
         return ["ParseError", str(e)]
@@ -143,8 +159,11 @@ def make_lexer(sched, me):
     S = sut.load()
 
     class SchedulingLexer(S.CLexer):
+        _vf_pass = False
+
         def token(self):
-            sched.wait_turn(me)
+            if not type(self)._vf_pass:
+                sched.wait_turn(me)
             return super().token()
     return SchedulingLexer
 
@@ -161,13 +180,13 @@ def count_fetches(text, fname):
     return n[0]
 
 
-def run_token_schedule(progs, schedule):
+def run_token_schedule(progs, schedule, warm=False):
     s = Sched(schedule)
     res = {}
 
     def work(i, text, fname):
         try:
-            res[i] = result_key(text, fname, make_lexer(s, i))
+            res[i] = result_key(text, fname, make_lexer(s, i), warm=warm)
         except BaseException as e:  # noqa: BLE001
             res[i] = ["harness-exception", repr(e)]
         finally:
@@ -319,14 +338,16 @@ def run_shard(spec):
             sch = []
             while len(sch) < L:
                 sch += [rnd.randrange(k)] * rnd.randrange(1, burst + 1)
-            r, s = (run_token_schedule if mode == "tok-rand" else run_call_schedule)(progs, sch)
+            warm = mode == "tok-rand" and i % 2 == 1
+            r, s = run_token_schedule(progs, sch, warm=warm) if mode == "tok-rand" else run_call_schedule(progs, sch)
             res["evaluations"] += k
+            cnt["warm_instances"] = cnt.get("warm_instances", 0) + (k if warm else 0)
             cnt["parses"] += k
             note(s.trace)
             if s.stuck:
                 res["inconclusive"].append({"why": "scheduler wait timed out", "mode": mode})
                 break
-            add(compare(r, progs, solo, s.trace, mode, {"rseed": spec["rseed"], "index": i, "burst": burst, "head": sch[:40]}))
+            add(compare(r, progs, solo, s.trace, mode, {"rseed": spec["rseed"], "index": i, "burst": burst, "head": sch[:40], "warm": warm}))
         res["samples"].append({"mode": mode, "programs": [p[1] for p in progs], "executed_steps": len(s.trace), "switches": switches(s.trace)})
     elif mode == "deep":
         # process-wide interpreter settings (recursion limit, switch interval, ...) are shared state too: run deep
@@ -497,10 +518,10 @@ def run_shard(spec):
 
 
 def summarize(results, tier, seed):
-    tot = {"schedules": 0, "steps": 0, "parses": 0, "max_switches": 0, "deep_pairs_skipped_solo_not_ok": 0}
+    tot = {"schedules": 0, "steps": 0, "parses": 0, "max_switches": 0, "deep_pairs_skipped_solo_not_ok": 0, "warm_instances": 0}
     for r in results:
         c = r.get("counters", {})
-        for k in ("schedules", "steps", "parses", "deep_pairs_skipped_solo_not_ok"):
+        for k in ("schedules", "steps", "parses", "deep_pairs_skipped_solo_not_ok", "warm_instances"):
             tot[k] += c.get(k, 0)
         tot["max_switches"] = max(tot["max_switches"], c.get("max_switches", 0))
     return {"monitors": {"schedulers": tot},
